@@ -134,6 +134,8 @@ func genericFor(id string, p *Prog, r *Report) {
 	case "C19":
 		selfDecrementRule(p, r, "R19.9", modset("rewards"), "AvailableRewards", 3)
 		reserveSideRule(p, r, "R19.10", 4)
+	case "C08":
+		flagSelectsListRule(p, r, "R08.14", modset("lend"), 2)
 	case "C10":
 		ignoredIDParamRule(p, r, "R10.14", modset("vault", "auction", "auctionsV2"), 100)
 	case "C07":
@@ -156,6 +158,7 @@ func genericFor(id string, p *Prog, r *Report) {
 		scaleAgreementRule(p, r, "R03.9", modset("vault"), 3)
 	case "C09":
 		scaleAgreementRule(p, r, "R09.7", modset("vault", "liquidation", "liquidationsV2", "lend"), 3)
+		flagSelectsListRule(p, r, "R09.12", modset("lend", "liquidation", "liquidationsV2"), 2)
 	case "C13":
 		recordLinkRule(p, r, "R13.7", modset("locker"), 4)
 	case "C14":
